@@ -91,7 +91,7 @@ type c1End struct {
 
 func (e *c1End) send(w *W, body []byte, n uint32) error {
 	if !isRaw(e.kind) {
-		return e.s.Send(body)
+		return SendOwn(e.s, body)
 	}
 	m := mangos.NewMessage(len(body))
 	m.Body = append(m.Body, body...)
